@@ -17,7 +17,7 @@ RUN_TIMEOUT = 120
 SELFTEST_PAIRS = {"quick": 12, "thorough": 30}
 PROBES = ["empty_mime_db", "hostile_mime_db", "reinit_from_sandbox_file", "decision_only_via_mime_fallback", "compound_extension", "url_like_path",
           "read_file_dispatch_checked", "archive_member_dispatch_checked", "attachment_dispatch_checked", "case_variant_checked", "symlink_path",
-          "trailing_separator_path", "history_revisits_path_after_db_change", "every_mapped_mime_on_unknown_ext", "cold_process_routing"]
+          "trailing_separator_path", "history_revisits_path_after_db_change", "every_mapped_mime_on_unknown_ext", "cold_process_routing", "dispatch_with_foreign_content", "encoding_suffix_path"]
 RULE = ("one run = a history of 20-60 operations interleaving routing calls (is_supported_file / get_extractor / read_file / archive member / "
         "e-mail attachment routing) on generated path strings with perturbations of the host MIME database (emptied, hostile overrides, re-init "
         "from a sandbox mime.types, restored), cwd changes and sandbox files; distinct non-trivial = (extension class, path shape, database "
@@ -84,14 +84,23 @@ DIRS = ["", "dir/", "/abs/dir/", "a\\b\\", "./", "../", "dir.d/", "dir.docx/", "
 TAILS = ["", "", "", "", "/", "/.", " ", ".", "?x=1", "#frag", "?download=1&name=a.pdf", "\\", "\n", ";", ":", "~", ".bak"]
 
 
+ENCODING_SUFFIXES = ["br", "gz", "Z", "bz2", "xz", "zst"]
+# what a file named like one format may really hold: routing is by name, so the bytes must never matter
+CONTENTS = [b"content\n", b"{\\rtf1\\ansi hello}", b"%PDF-1.4\n%%EOF\n", b"PK\x03\x04" + b"\0" * 26, b"\xd0\xcf\x11\xe0\xa1\xb1\x1a\xe1" + b"\0" * 504,
+            b"<html><body>x</body></html>", b"From: a@b\nSubject: s\n\nbody\n", b"7z\xbc\xaf\x27\x1c" + b"\0" * 26, b"\x1f\x8b\x08" + b"\0" * 15, b""]
+
+
 def _case_variant(rng, s: str) -> str:
     return "".join(c.upper() if rng.random() < 0.5 else c.lower() for c in s)
 
 
 def _gen_path(rng) -> dict:
-    src = rng.choices(["doc", "router", "platform", "near", "random", "none"], [5, 3, 3, 2, 1, 1])[0]
+    src = rng.choices(["doc", "router", "platform", "near", "random", "none", "encoded"], [5, 3, 3, 2, 1, 1, 1])[0]
     if src == "doc":
         ext = rng.choice(sorted(DOCUMENTED))
+    elif src == "encoded":
+        # a content-encoding suffix after a real extension (mimetypes.guess_type strips it and reports an encoding)
+        ext = rng.choice(sorted(DOCUMENTED) + _router_exts) + "." + rng.choice(ENCODING_SUFFIXES)
     elif src == "router":
         ext = rng.choice(_router_exts)
     elif src == "platform":
@@ -123,6 +132,20 @@ def gen_case(rng: random.Random, tier: str) -> dict:
         # cold process: the MIME database is perturbed BEFORE any extractor module is imported (they load lazily on first routing)
         exts = rng.sample(sorted(DOCUMENTED), rng.choice([6, 12, len(DOCUMENTED)]))
         return {"cold": True, "db": rng.choice(["empty", "empty", "hostile", "default"]), "hostile": rng.sample(range(len(HOSTILE)), 3), "exts": exts}
+    if rng.random() < 0.12:
+        # name/content matrix: files named like one documented format and holding the bytes of another, through every dispatching entry
+        ops = []
+        if rng.random() < 0.3:
+            ops.append(["db", rng.choice(["empty", "hostile"])] + ([rng.sample(range(len(HOSTILE)), 2)] if ops == [] and False else []))
+            if ops[-1][1] == "hostile":
+                ops[-1].append(rng.sample(range(len(HOSTILE)), 2))
+        for _ in range(rng.randrange(20, 41)):
+            ext = rng.choice(sorted(DOCUMENTED))
+            cs = rng.choice(["lower", "lower", "upper", "title"])
+            e2 = {"lower": ext, "upper": ext.upper(), "title": ext.title()}[cs]
+            ops.append(["dispatch", f"{rng.choice(['memo', 'Report 1', 'x.y'])}.{e2}", rng.choice(["read_file", "read_file", "archive", "attachment", "symlink"]),
+                        rng.randrange(1, len(CONTENTS))])
+        return {"ops": ops}
     ops = []
     paths = [_gen_path(rng) for _ in range(rng.randrange(6, 16))]
     for _ in range(rng.randrange(20, 61)):
@@ -148,7 +171,7 @@ def gen_case(rng: random.Random, tier: str) -> dict:
             ops.append(["chdir", rng.choice(["cwd", "cwd/sub", "."])])
         else:
             p = rng.choice(paths)
-            ops.append(["dispatch", p["path"], rng.choice(["read_file", "archive", "attachment", "symlink"])])
+            ops.append(["dispatch", p["path"], rng.choice(["read_file", "archive", "attachment", "symlink"]), rng.randrange(len(CONTENTS))])
     return {"ops": ops}
 
 
@@ -353,6 +376,8 @@ def run_case(case: dict) -> dict:
                                      "detail": f"{path!r} -> {g[1]}, {base_path!r} -> {gb[1]} (db={dbstate})"})
         if "." in ext:
             probe("compound_extension")
+        if src == "encoded":
+            probe("encoding_suffix_path")
         if "://" in path or path.startswith("data:"):
             probe("url_like_path")
         if path.endswith(("/", "\\", "/.")):
@@ -378,7 +403,7 @@ def run_case(case: dict) -> dict:
                     probe("history_revisits_path_after_db_change")
                 invariants(path, ext, src, shape)
             elif op[0] == "dispatch":
-                _dispatch(op[1], op[2], sbx, viol, probe, log, dbstate)
+                _dispatch(op[1], op[2], sbx, viol, probe, log, dbstate, op[3] if len(op) > 3 else 0)
                 evals += 1
     finally:
         _set_db("default", None, sbx)
@@ -411,12 +436,15 @@ class _Spy:
         return spy
 
 
-def _dispatch(path, kind, sbx, viol, probe, log, dbstate):
+def _dispatch(path, kind, sbx, viol, probe, log, dbstate, content_i=0):
     """read_file / archive member / attachment routing reach the extractor get_extractor names"""
     import importlib
     import sharepoint2text
     from sharepoint2text.parsing import router
     from sharepoint2text.parsing.exceptions import ExtractionError
+    content = CONTENTS[content_i % len(CONTENTS)]
+    if content_i:
+        probe("dispatch_with_foreign_content")
     base = os.path.basename(path.replace("\\", "/")) or "noname"
     base = base.replace("\n", "_").replace("\t", "_").replace("\x00", "_")[:100]
     if base in (".", "..") or "/" in base:
@@ -445,14 +473,14 @@ def _dispatch(path, kind, sbx, viol, probe, log, dbstate):
                 if kind == "symlink":
                     tgt = os.path.join(d, "target-object-3f9a")
                     with open(tgt, "wb") as f:
-                        f.write(b"content\n")
+                        f.write(content)
                     if os.path.lexists(fp):
                         os.remove(fp)
                     os.symlink(tgt, fp)
                     probe("symlink_path")
                 else:
                     with open(fp, "wb") as f:
-                        f.write(b"content\n")
+                        f.write(content)
             except OSError:
                 return
             sfp, gfp = _decide(fp)  # read_file routes on the path it was given (spies are installed: compare by label)
@@ -479,7 +507,7 @@ def _dispatch(path, kind, sbx, viol, probe, log, dbstate):
             import zipfile
             bio = io.BytesIO()
             with zipfile.ZipFile(bio, "w") as z:
-                z.writestr("d/" + base, b"content\n")
+                z.writestr("d/" + base, content)
             # real read_archive (its spy was installed too: call the saved original)
             orig = [o for m, f, o in saved if f == "read_archive"][0]
             try:
@@ -502,7 +530,7 @@ def _dispatch(path, kind, sbx, viol, probe, log, dbstate):
             from sharepoint2text.parsing.extractors.data_types import EmailAttachment, EmailContent
             mt = mimetypes.guess_type(base)[0] or "application/octet-stream"
             try:
-                att = EmailAttachment(filename=base, mime_type=mt, data=io.BytesIO(b"content\n"))
+                att = EmailAttachment(filename=base, mime_type=mt, data=io.BytesIO(content))
                 mail = EmailContent.__new__(EmailContent)
                 mail.attachments = [att]
                 supported_mime = att.is_supported_mime_type
